@@ -12,6 +12,7 @@ gen_matrix(rng, C, **features) builds the matrix through the public API.  Featur
   len_choices (list of frame lengths drawn from, overrides max_len/fd for the length)
   mux_value_tables (probability of a value table on the multiplexer signal)  mux_declared_01 (probability that such a
     multiplexer wider than one bit declares min 0 / max 1 and uses selector values 0/1 only)
+  tables_named_like_signals (probability per signal of a matrix-wide value table of the same name with other content)
   bare_signals (probability of a signal with all defaults - unsigned, factor 1, offset 0, natural limits, no unit - and a value table)
   static_in_mux (default True; False: a multiplexed frame holds only the multiplexer and multiplexed signals)
   float_signed_default (probability that a float signal keeps Signal's default is_signed=True; default: floats are unsigned)
@@ -291,6 +292,12 @@ def gen_matrix(rng, C, **ft):
             fr.add_signal_group("SG_" + fname[:10], rng.randrange(1, 5), members)
         fr.update_receiver()
         db.add_frame(fr)
+    if g("tables_named_like_signals", None) is not None:
+        # matrix-wide value tables whose names coincide with signal names (legal, e.g. VAL_TABLE_ next to VAL_), other content
+        for fr in db.frames:
+            for s in fr.signals:
+                if rng.random() < g("tables_named_like_signals", 0):
+                    db.add_value_table(s.name, {k: "Tbl%d" % k for k in sorted({rng.randrange(0, 8) for _ in range(rng.randrange(1, 4))})})
     if g("free_signals", False) and rng.random() < 0.5:
         s = C.Signal("FreeSig%d" % rng.randrange(100), start_bit=0, size=8, is_little_endian=True, is_signed=False)
         db.add_signal(s)
